@@ -320,6 +320,24 @@ func main() {
 	close(idxCh)
 	wg.Wait()
 
+	// A case that hit the watchdog while 16 workers compete for a loaded machine is re-run alone with a
+	// generous limit: only a case that does not terminate on its own is a property failure (no false alarm
+	// from machine load).
+	for i := range cases {
+		if len(results[i].Fails) == 1 && strings.HasPrefix(results[i].Fails[0], "case did not terminate within") {
+			saved := s.CaseTimeout
+			if s.CaseTimeout == 0 {
+				s.CaseTimeout = 30 * time.Second
+			}
+			s.CaseTimeout *= 8
+			r := runGuarded(s, cases[i].ops)
+			s.CaseTimeout = saved
+			if len(r.Outs) == len(cases[i].ops) {
+				results[i] = r
+			}
+		}
+	}
+
 	opsF, _ := os.Create(filepath.Join(*out, "ops.txt"))
 	implF, _ := os.Create(filepath.Join(*out, "impl.txt"))
 	ow, iw := bufio.NewWriterSize(opsF, 1<<20), bufio.NewWriterSize(implF, 1<<20)
